@@ -602,12 +602,20 @@ def r_rte_wrap(model, rep):
     f = model.own_method("compose.Compose", "_find_metadata_file")
     cx = facts.fctx(model, f)
     S = P(cx.selfname)
+    # "raise exactly when no candidate exists, else hand out the first existing one" in any spelling of the search
     rets = [ev for ev in cx.events if ev.kind == "return"]
-    ok = len(rets) == 1 and len(rets[0].loops) == 1 and rets[0].loops[0][1] == P(cx.params[1])
+    ss = [x for x in facts.searches(cx) if x.coll == P(cx.params[1])]
+    ok = len(ss) == 1 and bool(rets) and not cx.ex.falls_through
     if ok:
-        el = ("elem", rets[0].loops[0][1], rets[0].loops[0][0])
-        p = ("call", ("global", "os.path.join"), (("attr", S, "compose_path"), el), ())
-        ok = rets[0].value == p and list(rets[0].guards) == [(("call", ("global", "_file_exists"), (p,), ()), True)]
+        x = ss[0]
+        p = ("call", ("global", "os.path.join"), (("attr", S, "compose_path"), x.elem), ())
+        ok = x.test == ("call", ("global", "_file_exists"), (p,), ())
+        for r in rets:
+            vals = [a for a in T.alts(r.value) if a[0] not in ("undef", "carried")]
+            ok = ok and vals == [p]
+            if not r.loops:
+                # returned after the loop: only the hit leaves the loop normally (the miss raises)
+                ok = ok and x.form == "flag" and r.seq > x.raise_ev.seq
     rep.ob("R-RTE-WRAP", "Compose._find_metadata_file:first-existing-candidate", ok, site=cx.site(f.node),
            msg="" if ok else "candidates must be probed in the given order under compose_path and the first existing one returned")
     rs = [ev for ev in cx.events if ev.kind == "raise"]
